@@ -127,6 +127,6 @@ theorem iterAt_loops (c : Cfg) (hc : CfgOK c) (x : Name) (body : Stmt) (hws : WS
 def ctxOf (lc : Target.LoopCtx) : LoopCtx := ⟨lc.items.length, lc.index⟩
 
 /-- the enclosing loop context (`LoopContext.parent`) -/
-def parentOf (loops : List Target.LoopCtx) : Option Target.LoopCtx := loops.tail.head?
+def parentOf (loops : List Target.LoopCtx) : Option Target.LoopCtx := parentOfStack loops
 
 end MakoModel.Control
